@@ -2,9 +2,12 @@
 from common import hx
 from convgen import *
 from cvbase import *
+import plbase
 
 ID = "C12"
-PROPS = "C12"
+EXEC = ("cv", "pl")
+IMPL_SHARDS = 8
+PROPS = ["C12", "C12Close"]
 RULE = ("pipelines of 1..4 requests; one of them carries version x Connection value from the grid {1.0, 1.1} x {absent, close, Close, "
         "keep-alive, Keep-Alive, upgrade, 'x, close', 'keep-alive, close', x-closed, foo, keep-alive;x, UPGRADE, ''}; every "
         "position; followed by further well-formed requests (which must be ignored after a final request and served otherwise) "
@@ -62,7 +65,37 @@ def gen(tier, rng):
     for ver in ("1.0", "1.1"):
         for conn in CONN[:8]:
             yield build(rng, 2, 0, ver, conn, True, False, transport="t")
+    for x in gen_close(tier, rng):
+        yield x
+
+
+def gen_close(tier, rng):
+    """the client half-closes after its last request while the requests are still unanswered; they are answered
+    by separate threads in permuted order; the server must not close before the last one is answered"""
+    for i in range(40 if tier == "quick" else 400):
+        n = 2 + rng.below(3)
+        order = list(range(n))
+        rng.shuffle(order)
+        line, tags = plbase.build(rng, 9000 + i, n, order, 20000, kinds=["respond", "respond", "drop", "raw", "chunked"])
+        tags["scenario"] = "close-after-last-answer"
+        yield line + " noearly=1", tags
 
 
 def nontrivial(case, mo):
     return True
+
+
+def oracle(case, obs):
+    import annot, re
+    v = annot.check(case, obs)
+    if v != "OK":
+        return v
+    if " noearly=1" in case:
+        m = re.search(r"early_eof=(\d) closed_at_end=(\d)", obs)
+        if not m:
+            return "FAIL no close observation"
+        if m.group(1) == "1":
+            return "FAIL the server closed its sending side while a received request was still unanswered"
+        if m.group(2) != "1":
+            return "FAIL the server did not close its sending side after the last answer although the client had closed"
+    return "OK"
